@@ -1,0 +1,41 @@
+//go:build verif
+
+package leveldb
+
+import (
+	"sync/atomic"
+
+	"github.com/syndtr/goleveldb/leveldb"
+	"github.com/syndtr/goleveldb/leveldb/opt"
+)
+
+// Hooks for the verification harness (build tag "verif"). They change no behaviour unless set.
+
+var verifOpenHook atomic.Value  // func(path string, options *opt.Options) (*leveldb.DB, bool, error)
+var verifPauseHook atomic.Value // func(point string)
+
+// VerifSetOpenHook lets the harness supply the goleveldb handle (e.g. over a recording storage.Storage).
+// The hook returns handled=false to fall through to leveldb.OpenFile.
+func VerifSetOpenHook(h func(path string, options *opt.Options) (*leveldb.DB, bool, error)) {
+	verifOpenHook.Store(h)
+}
+
+// VerifSetPauseHook installs a function called at the named pause points of DB and SerialDB.
+func VerifSetPauseHook(h func(point string)) {
+	verifPauseHook.Store(h)
+}
+
+func verifOpen(path string, options *opt.Options) (*leveldb.DB, bool, error) {
+	h, _ := verifOpenHook.Load().(func(path string, options *opt.Options) (*leveldb.DB, bool, error))
+	if h == nil {
+		return nil, false, nil
+	}
+	return h(path, options)
+}
+
+func verifPause(point string) {
+	h, _ := verifPauseHook.Load().(func(point string))
+	if h != nil {
+		h(point)
+	}
+}
